@@ -1,7 +1,7 @@
 (** Properties/C06.v — "Encrypted documents yield their plaintext with either password, and only then".
     Only statements, each closed by [exact] of a lemma proved in Crypt/*Proofs.v.  MD5, SHA-2, AES-CBC and SASLprep
     are universally quantified functions; what a theorem needs of them is an explicit premise. *)
-From PdfV Require Import Base.Prelude Gen.Generated Crypt.Rc4 Crypt.Rc4Proofs Crypt.Model Crypt.Spec Crypt.Tables Crypt.Proofs Crypt.KdfProofs.
+From PdfV Require Import Base.Prelude Gen.Generated Crypt.Rc4 Crypt.Rc4Proofs Crypt.Model Crypt.Spec Crypt.Tables Crypt.Proofs Crypt.KdfProofs Crypt.Proofs56 Crypt.SafeProofs.
 
 (** the full statement (for reference): for every variant, passwords, P, id, EncryptMetadata, crypt filters named by /StmF and
     /StrF, object and generation numbers and contents — proved below for /StrF = /StmF; refuted otherwise (C06_strf_refuted, C06-b) *)
@@ -31,7 +31,7 @@ Print Assumptions C06_pkcs7.
 (** the generated constants of crypt.rs are the ones the model was written with; PADDING is the standard's string *)
 Theorem C06_tables : PADDING = spec_pad /\ crypt_salt = salt_tag /\
   crypt_constants = [1; 19; 3; 50; 4; 32; 16;  16; 3; 50; 2; 1; 20;  1; 40; 2; 8; 4; 6; 5; 2; 6;  4; 48; 48; 127; 64; 32; 64; 16;
-                     3; 16; 32; 32; 3; 2; 5; 16;  16; 16; 16] /\
+                     3; 16; 32; 32; 3; 2; 5; 16;  16; 16; 16;  32; 32] /\
   crypt_meta_bytes = [255; 255; 255; 255] /\
   crypt_r56_slices = [(0, 32); (32, 40); (40, 48); (0, 32); (32, 40); (40, 48)] /\
   crypt_kdf_arms = [(32, 256); (48, 384); (64, 512)].
@@ -133,6 +133,106 @@ Theorem C06_strf_refuted : ~ C06_full_statement.
 Proof. exact strf_refuted. Qed.
 Print Assumptions C06_strf_refuted.
 
+(** revisions 5 and 6: Decoder::from_password is Algorithm 2.A (ISO 32000-2 §7.6.4.3.3; user test = Algorithm 11 first, then owner
+    test = Algorithm 12), for every dictionary whose U/O have 48 bytes and whose UE/OE are whole AES blocks, every preparable
+    password and every fuel on which the hashes (SHA-256 for R5, Algorithm 2.B for R6) are defined *)
+Theorem C06_from_password_56_refines : forall SHA256 SHA384 SHA512 AESE AESD PREP, (forall x, length (SHA256 x) = 32%nat) ->
+  forall fuel R m d pass p ue oe ru ro,
+  PREP pass = Some p -> lenN (d_u d) = 48 -> lenN (d_o d) = 48 ->
+  d_ue d = Some ue -> d_oe d = Some oe -> lenN ue mod 16 = 0 -> lenN oe mod 16 = 0 ->
+  alg2a_user SHA256 SHA384 SHA512 AESE AESD R fuel (pw56 p) (d_u d) ue = Some ru ->
+  (ru = None -> alg2a_owner SHA256 SHA384 SHA512 AESE AESD R fuel (pw56 p) (d_o d) (d_u d) oe = Some ro) ->
+  from_password_56 (fun x => Ok (SHA256 x)) (fun x => Ok (SHA384 x)) (fun x => Ok (SHA512 x))
+                (fun k iv x => Ok (AESE k iv x)) (fun k iv x => Ok (AESD k iv x)) (fun x => Ok (PREP x)) fuel R m d pass
+  = match ru with Some k => finish56 m d k | None => result56 m d ro end.
+Proof. exact from_password_56_refines. Qed.
+Print Assumptions C06_from_password_56_refines.
+
+(** a dictionary whose U and UE were written by Algorithm 8 for the user password opens with it; the decoder holds the file key *)
+Theorem C06_open_user_56 : forall MD5 SHA256 SHA384 SHA512 AESE AESD PREP,
+  (forall x, length (SHA256 x) = 32%nat) -> (forall x, length (SHA384 x) = 48%nat) -> (forall x, length (SHA512 x) = 64%nat) ->
+  (forall k iv x, lenN x mod 16 = 0 -> AESD k iv (AESE k iv x) = x) -> (forall k iv x, lenN (AESE k iv x) = lenN x) ->
+  forall fuel d id0 upw p R m hv hk vs ks fk oe,
+  std_56_dict d R m -> PREP upw = Some p ->
+  lenN vs = 8 -> lenN ks = 8 -> lenN fk = 32 ->
+  hash56 SHA256 SHA384 SHA512 AESE R fuel (pw56 p) vs [] = Some hv ->
+  hash56 SHA256 SHA384 SHA512 AESE R fuel (pw56 p) ks [] = Some hk ->
+  d_u d = alg8_U hv vs ks -> d_ue d = Some (alg8_UE AESE hk fk) ->
+  lenN (d_o d) = 48 -> d_oe d = Some oe -> lenN oe mod 16 = 0 ->
+  opens_with (from_password (fun x => Ok (MD5 x)) (fun x => Ok (SHA256 x)) (fun x => Ok (SHA384 x)) (fun x => Ok (SHA512 x))
+                (fun k iv x => Ok (AESE k iv x)) (fun k iv x => Ok (AESD k iv x)) (fun x => Ok (PREP x)) fuel d id0 upw)
+             32 fk m (em_of d).
+Proof. exact open_user_56. Qed.
+Print Assumptions C06_open_user_56.
+
+(** a dictionary whose O and OE were written by Algorithm 9 for the owner password opens with it (premise: the owner password
+    is not also accepted as user password, which the code tests first) *)
+Theorem C06_open_owner_56 : forall MD5 SHA256 SHA384 SHA512 AESE AESD PREP,
+  (forall x, length (SHA256 x) = 32%nat) -> (forall x, length (SHA384 x) = 48%nat) -> (forall x, length (SHA512 x) = 64%nat) ->
+  (forall k iv x, lenN x mod 16 = 0 -> AESD k iv (AESE k iv x) = x) -> (forall k iv x, lenN (AESE k iv x) = lenN x) ->
+  forall fuel d id0 opw p R m hx ho hk vs ks fk ue,
+  std_56_dict d R m -> PREP opw = Some p ->
+  lenN vs = 8 -> lenN ks = 8 -> lenN fk = 32 ->
+  lenN (d_u d) = 48 -> d_ue d = Some ue -> lenN ue mod 16 = 0 ->
+  hash56 SHA256 SHA384 SHA512 AESE R fuel (pw56 p) (vsalt (d_u d)) [] = Some hx -> hx <> take 32 (d_u d) ->
+  hash56 SHA256 SHA384 SHA512 AESE R fuel (pw56 p) vs (d_u d) = Some ho ->
+  hash56 SHA256 SHA384 SHA512 AESE R fuel (pw56 p) ks (d_u d) = Some hk ->
+  d_o d = alg9_O ho vs ks -> d_oe d = Some (alg9_OE AESE hk fk) ->
+  opens_with (from_password (fun x => Ok (MD5 x)) (fun x => Ok (SHA256 x)) (fun x => Ok (SHA384 x)) (fun x => Ok (SHA512 x))
+                (fun k iv x => Ok (AESE k iv x)) (fun k iv x => Ok (AESD k iv x)) (fun x => Ok (PREP x)) fuel d id0 opw)
+             32 fk m (em_of d).
+Proof. exact open_owner_56. Qed.
+Print Assumptions C06_open_owner_56.
+
+(** a password SASLprep rejects, or one that neither Algorithm 11 nor Algorithm 12 accepts, is rejected with InvalidPassword *)
+Theorem C06_wrong_pw_56 : forall MD5 SHA256 SHA384 SHA512 AESE AESD PREP, (forall x, length (SHA256 x) = 32%nat) ->
+  forall fuel d id0 pw R m ue oe,
+  std_56_dict d R m -> lenN (d_u d) = 48 -> lenN (d_o d) = 48 ->
+  d_ue d = Some ue -> d_oe d = Some oe -> lenN ue mod 16 = 0 -> lenN oe mod 16 = 0 ->
+  (PREP pw = None \/
+   exists p, PREP pw = Some p /\
+     alg2a_user SHA256 SHA384 SHA512 AESE AESD R fuel (pw56 p) (d_u d) ue = Some None /\
+     alg2a_owner SHA256 SHA384 SHA512 AESE AESD R fuel (pw56 p) (d_o d) (d_u d) oe = Some None) ->
+  from_password (fun x => Ok (MD5 x)) (fun x => Ok (SHA256 x)) (fun x => Ok (SHA384 x)) (fun x => Ok (SHA512 x))
+                (fun k iv x => Ok (AESE k iv x)) (fun k iv x => Ok (AESD k iv x)) (fun x => Ok (PREP x)) fuel d id0 pw
+  = Err E_INVALID_PASSWORD.
+Proof. exact wrong_pw_56. Qed.
+Print Assumptions C06_wrong_pw_56.
+
+(** ... and only then: a decoder is returned iff Algorithm 11 or 12 accepts and the unwrapped key has 32 bytes *)
+Theorem C06_accepted_iff_56 : forall MD5 SHA256 SHA384 SHA512 AESE AESD PREP, (forall x, length (SHA256 x) = 32%nat) ->
+  forall fuel d id0 pw p R m ue oe ru ro,
+  std_56_dict d R m -> PREP pw = Some p -> lenN (d_u d) = 48 -> lenN (d_o d) = 48 ->
+  d_ue d = Some ue -> d_oe d = Some oe -> lenN ue mod 16 = 0 -> lenN oe mod 16 = 0 ->
+  alg2a_user SHA256 SHA384 SHA512 AESE AESD R fuel (pw56 p) (d_u d) ue = Some ru ->
+  alg2a_owner SHA256 SHA384 SHA512 AESE AESD R fuel (pw56 p) (d_o d) (d_u d) oe = Some ro ->
+  ((exists dc, from_password (fun x => Ok (MD5 x)) (fun x => Ok (SHA256 x)) (fun x => Ok (SHA384 x)) (fun x => Ok (SHA512 x))
+                (fun k iv x => Ok (AESE k iv x)) (fun k iv x => Ok (AESD k iv x)) (fun x => Ok (PREP x)) fuel d id0 pw = Ok dc) <->
+   (exists k, lenN k = 32 /\ (ru = Some k \/ (ru = None /\ ro = Some k)))).
+Proof. exact accepted_iff_56. Qed.
+Print Assumptions C06_accepted_iff_56.
+
+(** Decoder::from_password never panics: for every dictionary, document id, password and fuel the outcome is an error value,
+    fuel exhaustion of the model's revision_6_kdf loop, or a decoder *)
+Theorem C06_no_panic : forall MD5 SHA256 SHA384 SHA512 AESE AESD PREP, (forall x, length (MD5 x) = 16%nat) ->
+  forall fuel d id0 pass s,
+  from_password (fun x => Ok (MD5 x)) (fun x => Ok (SHA256 x)) (fun x => Ok (SHA384 x)) (fun x => Ok (SHA512 x))
+                (fun k iv x => Ok (AESE k iv x)) (fun k iv x => Ok (AESD k iv x)) (fun x => Ok (PREP x)) fuel d id0 pass
+  <> Panic s.
+Proof. exact from_password_no_panic. Qed.
+Print Assumptions C06_no_panic.
+
+(** ... and whatever decoder load_storage_and_trailer_password installs never makes a stream or string decryption panic
+    (Decoder::key slice, Rc4::new assert!, unreachable!()), for every object, generation and bytes *)
+Theorem C06_decrypt_no_panic : forall MD5 SHA256 SHA384 SHA512 AESE AESD PREP, (forall x, length (MD5 x) = 16%nat) ->
+  forall fuel d id0 pass enc meta dc num gen data s,
+  load_decoder (fun x => Ok (MD5 x)) (fun x => Ok (SHA256 x)) (fun x => Ok (SHA384 x)) (fun x => Ok (SHA512 x))
+                (fun k iv x => Ok (AESE k iv x)) (fun k iv x => Ok (AESD k iv x)) (fun x => Ok (PREP x)) fuel d id0 pass enc meta = Ok dc ->
+  decrypt (fun x => Ok (MD5 x)) (fun k iv x => Ok (AESD k iv x)) dc num gen data <> Panic s /\
+  ctx_decrypt (fun x => Ok (MD5 x)) (fun k iv x => Ok (AESD k iv x)) (Some dc) num gen data <> Panic s.
+Proof. exact loaded_decoder_no_panic. Qed.
+Print Assumptions C06_decrypt_no_panic.
+
 (** non-vacuity *)
 Example C06_oracle_premises_consistent :
   (forall x : bytes, length ((fun _ => repeatN 0 16) x) = 16%nat) /\
@@ -151,3 +251,16 @@ Example C06_decoder_for_exists :
   decoder_for (decoder_new (repeatN 1 32) 32 MAESV3 true) (repeatN 1 32) MAESV3 /\
   decoder_for (decoder_new (repeatN 1 16) 5 MV2 true) (repeatN 1 5) MV2.
 Proof. split; (split; [reflexivity|vm_compute; intuition discriminate]). Qed.
+
+(* revisions 5/6: a dictionary of the shape the theorems speak about exists, and Algorithm 2.B is defined on some fuel
+   (toy oracles: constant digests of the right lengths, AES-CBC = identity) *)
+Example C06_std_56_dict_exists :
+  std_56_dict {| d_o := []; d_u := []; d_r := 6; d_p := (-4)%Z; d_v := 5; d_bits := 256;
+                 d_cf := [([83], {| cf_method := MAESV3; cf_length := Some 32 |})]; d_stmf := Some [83];
+                 d_em := true; d_oe := None; d_ue := None |} 6 MAESV3.
+Proof. split; [exists 256; vm_compute; reflexivity|split; [reflexivity|right; reflexivity]]. Qed.
+
+Example C06_hash56_defined :
+  hash56 (fun _ => repeatN 0 32) (fun _ => repeatN 0 48) (fun _ => repeatN 0 64) (fun _ _ x => x) 6 64 [112] (repeatN 1 8) [] = Some (repeatN 0 32) /\
+  hash56 (fun _ => repeatN 0 32) (fun _ => repeatN 0 48) (fun _ => repeatN 0 64) (fun _ _ x => x) 5 0 [112] (repeatN 1 8) [] = Some (repeatN 0 32).
+Proof. split; vm_compute; reflexivity. Qed.
